@@ -17,7 +17,7 @@ RULE = ("shipdrv: real ship.ShipConnection objects between a recording info prov
 TRUSTED = [
     "view computation of received frames (encoding/json on the repository's model structs + ship.JsonFromEEBUSJson) and frame classification of written frames in harness/cmd/shipdrv",
     "fake info provider / data writer of shipdrv; ship/verif_hooks.go (snapshot, timeout delivery)",
-    "environment assumptions written into ConnEvents.v: Run() is called once; no message is delivered once the transport is closed (C13); SPINE writes only after SetupRemoteDevice; the websocket layer sets its closed flag before it reports an error",
+    "environment assumptions written into ConnEvents.v: Run() is called once; SPINE writes only after SetupRemoteDevice; the websocket layer sets its closed flag before it reports an error",
     "handshake timers are ideal in this model (armed/stopped flags, expiry only when armed): the real stop mechanism is C14's model",
     "encoding/json, go-ordered-json: modelled, not verified (a frame is the view the decoders have of it)",
 ]
